@@ -191,11 +191,29 @@ PROPS = {
                  "encodings differ; distinct by case hash."),
         "jobs": [{"run": "^TestC17", "shards": 32, "timeout_quick": 600, "timeout_thorough": 3000}],
     },
+    "C07": {
+        "rule": ("schedules are generated inputs. (1) owned schedule: 2-4 goroutines, each with one op (Marshal / Unmarshal / CodecForType) on a type "
+                 "of one family (self-recursive via slice, via pointer, via pointer slice, via map value; mutually recursive; 3-cycle; deep "
+                 "non-recursive nesting; interned fields + struct-keyed maps), all on ONE fresh Plenc so every run is a first use; goroutines park "
+                 "at the verif yield hooks (registry miss, before registry store, struct start / per field / before index / before publish, intern "
+                 "miss, map key scratch) and a scheduler resumes one at a time following a rapid-drawn choice list (sparse preemptions), so a run "
+                 "is a pure function of the case; additionally, for two goroutines, every schedule with <=1 (quick) / <=2 (thorough) preemptions "
+                 "over 90 scheduling points is enumerated for fixed op pairs. (2) free-running: the same ops released from a barrier on fresh "
+                 "instances under the race detector. Oracle: each op's result (bytes up to map order / decoded value / codec or error) equals "
+                 "what it returns alone on a fresh instance, no panic, no deadlock, the shared instance still gives the sequential results "
+                 "afterwards, no race report. Non-trivial = >=1 preemption at a codec-construction yield point; distinct by case hash "
+                 "(enumerated schedules distinct by construction)."),
+        "jobs": [
+            {"run": "^TestC07Schedules$", "shards": 16, "timeout_quick": 600, "timeout_thorough": 3000},
+            {"run": "^TestC07Enumerate$", "shards": 16, "quick_shards": 4, "timeout_quick": 600, "timeout_thorough": 3000},
+            {"run": "^TestC07Race$", "shards": 4, "race": True, "timeout_quick": 600, "timeout_thorough": 3000},
+        ],
+    },
 }
 
 # Properties not (yet) claimed, with the reason. Kept current by hand.
 NOT_APPLICABLE = {p: "check not built yet in this commit (work in progress; the technique applies, see DESIGN.md)" for p in
-                  ["C07", "C19", "C20"]}
+                  ["C19", "C20"]}
 
 # commits in /repo that add build-tag-guarded hooks
-HOOK_COMMITS = []
+HOOK_COMMITS = ["d7875c1"]
